@@ -289,7 +289,7 @@ def main():
                 code2, msg2, calls2, http2 = run_once()
                 nrun += 1
                 args[:] = saved
-                ev0 = dict(scen_ev, fault=fc, writes=W, out_found=[[ids[h], o, s] for (h, o, s) in found2 if h in ids], seed_found=[], inplace=True, first_exit=code, first_msg=msg,
+                ev0 = dict(scen_ev, fault=fc, writes=W, out_found=[[ids[h], o, s] for (h, o, s) in found2 if h in ids], inplace=True, first_exit=code, first_msg=msg,
                            prior_len=len(mid), kind="regular" if kind == "new" else kind)
                 evs = [ev0] + io_events(calls2, out, ap_) + [{"ev": "http", "first": x[0], "last": x[1]} for x in http2] + [after_ev(code2, msg2), {"ev": "done"}]
                 for e in evs:
